@@ -497,17 +497,52 @@ def run(ctx):
                    "CPython 3.12 running /repo's front end, back end and embossc"]
     ctx.assumptions = ["exceptions raised inside passes are outside the Coq model; they are searched for, not proved absent",
                        "the per-line tokenizer and the LR driver are arguments of the model (modelled by the C10 and C08/C09 checks)"]
+    phases = ctx.extra.setdefault("phase_seconds", {})
+    t_phase = [time.time()]
+
+    def phase(name):
+        now = time.time()
+        phases[name] = round(now - t_phase[0], 1)
+        t_phase[0] = now
+
     ctx.audit()
     ctx.check_theorems("EmbossV.Pipeline.Properties_C16", "Pipeline/Properties_C16.v", expect_min=20)
+    phase("coq")
 
     extra = {name: text for name, text in gen_fuzz.corpus(fw.REPO)}
 
+    # ---- replay of one recorded violation ------------------------------------------
+    if getattr(ctx, "replay_path", None):
+        rp = json.load(open(ctx.replay_path, encoding="utf-8"))
+        r = rp.get("replay", {})
+        if r.get("kind") == "emb":
+            files = make_files(r["text"], extra)
+            rec = pw.strip(pw.compile_files(files, MAIN))
+            probs = judge(rec, files)
+            ctx.case(("replay", r["text"]), nontrivial=True, sample={"replay": ctx.replay_path, "outcome": rec["status"]})
+            ctx.obligation("replay: %s no longer fails" % rp.get("key"), not probs)
+            for key, desc in probs:
+                ctx.violation(key, desc, dict(kind="emb", main=MAIN, text=r["text"]), found_input=True)
+            return
+        if r.get("kind") == "cli" and r.get("file_bytes_hex") is not None:
+            res = run_cli(ctx, os.path.join(ctx.bdir, "replay"), bytes.fromhex(r["file_bytes_hex"]))
+            err = clean_stderr(res["stderr"])
+            bad = "Traceback (most recent call last)" in err or res["rc"] not in (0, 1)
+            ctx.case(("replay-cli", r["file_bytes_hex"]), nontrivial=True)
+            ctx.obligation("replay: %s no longer fails" % rp.get("key"), not bad)
+            if bad:
+                ctx.violation(cli_crash_key(err) if "Traceback" in err else "cli-exit-status", err.strip().splitlines()[-1][:200],
+                              dict(kind="cli", file_bytes_hex=r["file_bytes_hex"], stderr=err[-1500:]), found_input=True)
+            return
+        ctx.note("replay file of kind %r: running the whole check" % r.get("kind"))
+
     # ---- (i) the mirrored functions ---------------------------------------------
-    n_model = 600 if ctx.thorough() else 160
+    n_model = 600 if ctx.thorough() else 120
     mc = model_cases(ctx, n_model)
+    phase("model-cases")
 
     # ---- (ii) generated inputs through the real pipeline ------------------------
-    n_fuzz = 60000 if ctx.thorough() else 4000
+    n_fuzz = 60000 if ctx.thorough() else 3000
     inputs = [(lab, txt) for lab, txt, _ in load_corpus()]
     n_corpus = len(inputs)
     seen = set()
@@ -521,6 +556,7 @@ def run(ctx):
             continue
         seen.add(h)
         inputs.append((lab, txt))
+    phase("generate")
     nproc = min(fw.NPROC, 16)
     chunks = [inputs[i::nproc * 4] for i in range(nproc * 4)]
     results = []
@@ -530,6 +566,7 @@ def run(ctx):
         for part in ex.map(batch_worker, [(c, extra) for c in chunks]):
             results += part
 
+    phase("pipeline")
     found = {}          # key -> (text, desc, label, count)
     fmt_cases = []
     for label, text, rec, probs in results:
@@ -575,6 +612,7 @@ def run(ctx):
                            main=MAIN, text=small[key], original_text=text if text != small[key] else None, occurrences=cnt),
                       found_input=True)
 
+    phase("shrink")
     # ---- model cases through Coq ------------------------------------------------
     allc = mc + fmt_cases
     runner = fw.CoqCases(ctx, "c16", HEADER, "run_c16", "c16_res_eqb", "c16_call", "c16_res", shard=120, timeout=1500)
@@ -612,6 +650,7 @@ def run(ctx):
                            python=exp[:3000], model_outputs=out[:3000], info={k: str(v)[:800] for k, v in info.items()}),
                       found_input=False)
 
+    phase("coq-cases")
     # ---- (iii) the embossc CLI --------------------------------------------------
     n_cli = 160 if ctx.thorough() else 40
     by_status = {}
@@ -690,4 +729,5 @@ def run(ctx):
             continue        # same crash class already reported with a shrunk input
         ctx.violation(key, desc, dict(kind="cli", entry="embossc", file_bytes_hex=data.hex() if len(data) < 4000 else None,
                                       text=text, stderr=err[-1500:]), found_input=True)
+    phase("cli")
     ctx.extra["distinct_violation_keys"] = sorted(set(found) | set(cli_found))
